@@ -14,7 +14,7 @@ missed = [r[0] for r in rows if r[2] != 'yes']
 harm = json.load(open('/verif/harmless/results.json')) if os.path.exists('/verif/harmless/results.json') else {}
 hn = len(harm); hclean = sum(1 for v in harm.values() if not v)
 out = '''## Appendix C — seeded changes and which checks catch them
-Four rounds of independent sub-agents, each given only the text of one property
+Five rounds of independent sub-agents, each given only the text of one property
 and a scratch worktree (second round: with the contract files removed from the
 worktree; the others: as the repository is), produced %d changes that
 compile, pass the whole pinned suite and break the property only for specific
@@ -53,7 +53,9 @@ run for 20 minutes); `#frame[k]` claimed wherever the store sits and attributed
 to the properties whose modular proofs rest on the callee's frame (C10-d);
 pool obligations under C01 (C01-h); `consumeString` inspected-byte count and the
 exact truncated-mode decision over `insp(raw)` (C09-h, C08-h); DetectReader asks
-for exactly `limit` bytes (C08-g); the csv.Reader configuration scan (C13-h).
+for exactly `limit` bytes (C08-g); the csv.Reader configuration scan (C13-h);
+the strict slice rule as a kind of its own, claimed in new code (C04-i: a recycled
+path-stack slot still pointing into an earlier input).
 
 | seed | property | own check reports it | first obligation reported | change (first sentence of its author's description) |
 |---|---|---|---|---|
